@@ -15,6 +15,7 @@
 use vstd::prelude::*;
 use std::convert::TryFrom;
 use std::marker::PhantomData;
+use std::ops::Deref;
 use vstd::std_specs::iter::IteratorSpec;
 
 //@@ INCLUDE gen_types.inc.rs
@@ -71,6 +72,10 @@ impl From<&Class> for Name {
 impl Name {
     #[verifier::external_body]
     pub fn empty() -> Name { unimplemented!() }
+}
+impl AST {
+    #[verifier::external_body]
+    pub fn new(pos: Position, node: Node) -> (r: AST) ensures r == (AST { pos: pos, node: node }) { unimplemented!() }
 }
 impl Position {
     #[verifier::external_body]
@@ -156,13 +161,186 @@ pub open spec fn params_post(possible: Seq<FunctionArg>, act: Seq<(Position, Exp
 //@@> assert(params_post(possible@, act, *ctx, *constr));  //# all_arguments_are_bounded_and_arity_matches [C05]
 //@@ LOOPINV
 //@@< for either_or_both in $$.zip_longest($$)
-//@@> invariant zit.history@ + zit.iter.remaining() == zl_seq(possible@, act), zit.history@.len() == zit.index@, zit.index@ <= zl_seq(possible@, act).len(), n_done == zit.index@, grows(*old(constr), *constr),
+//@@> invariant zit.history@ + zit.iter.remaining() == zl_seq(possible@, act), zit.history@.len() == zit.index@, zit.index@ <= zl_seq(possible@, act).len(), n_done == zit.index@, grows(*old(constr), *constr), mono(*old(constr), *constr), constr.var_mapping == old(constr).var_mapping,
 //@@ INVCLAIM
 //@@< for either_or_both in $$.zip_longest($$)
 //@@> forall|i: int| 0 <= i < zit.index@ ==> i < possible@.len() && (i < act.len() ==> param_ok(#[trigger] possible@[i], act[i], *ctx, *constr)) && (i >= act.len() ==> possible@[i].has_default), //# loop_every_argument_so_far_is_bounded_by_its_parameter [C05]
     ensures
         grows(*old(constr), *final(constr)),                                     //# constraints_are_never_dropped [C05]
+        mono(*old(constr), *final(constr)), final(constr).var_mapping == old(constr).var_mapping, //# visit_log_and_global_mapping_untouched [-]
         r is Ok ==> params_post(possible@, actuals(self_ast.pos, *self_arg, args@), *ctx, *final(constr)), //# every_argument_is_bounded_by_its_parameter_and_arity_matches [C05]
+        r is Err ==> r->Err_0@.len() >= 1,                                       //# rejection_carries_a_diagnostic [-]
+//@@ END
+
+
+// ---- check_reassignable (C07: only identifiers and property chains of identifiers can be assigned to) ------------------------
+/// OUTLINED `Identifier::try_from(ast).map_err(|errs| ..)` (closure only rewrites the messages)
+pub uninterp spec fn plain_ident(a: AST) -> Option<Identifier>;
+#[verifier::external_body]
+pub fn verif_identifier_of(ast: &AST) -> (r: TypeResult<Identifier>)
+    ensures r matches Ok(i) ==> plain_ident(*ast) == Some(i), r is Err ==> plain_ident(*ast) is None && r->Err_0@.len() >= 1,
+{ unimplemented!() }
+
+/// what may stand on the left of `:=`: a plain identifier pattern, or a chain `a.b.c` whose links are SINGLE identifiers
+pub open spec fn reassignable(a: AST) -> Option<Identifier>
+    decreases a
+{
+    match a.node {
+        Node::PropertyCall { instance, property } => match reassignable(*property) {
+            Some(Identifier::Single(m, prop_call)) => match reassignable(*instance) {
+                Some(Identifier::Single(_m2, inst_call)) => Some(Identifier::Single(m, IdentiCall::Call(Box::new(inst_call), Box::new(prop_call)))),
+                _ => None,
+            },
+            _ => None,
+        },
+        _ => plain_ident(a),
+    }
+}
+
+//@@ FN src/check/constrain/generate/call.rs | free | check_reassignable | props=C07,C03
+//@@ REPLACE
+//@@< Identifier::try_from(ast).map_err($$)
+//@@> verif_identifier_of(ast)
+    ensures
+        r matches Ok(i) ==> reassignable(*ast) == Some(i),                       //# accepted_targets_are_identifier_chains [C07]
+        r is Err ==> reassignable(*ast) is None,                                 //# everything_else_is_rejected [C07]
+        r is Err ==> r->Err_0@.len() >= 1,                                       //# rejection_carries_a_diagnostic [-]
+    decreases *ast
+//@@ END
+
+// ---- reassign_op (C07: `x op= e` is checked as `x := x op e`, through the same Reassign path) -----------------------------------
+pub open spec fn op_node(op: NodeOp, left: AST, right: AST) -> Option<Node> {
+    match op {
+        NodeOp::Add => Some(Node::Add { left: Box::new(left), right: Box::new(right) }),
+        NodeOp::Sub => Some(Node::Sub { left: Box::new(left), right: Box::new(right) }),
+        NodeOp::Mul => Some(Node::Mul { left: Box::new(left), right: Box::new(right) }),
+        NodeOp::Div => Some(Node::Div { left: Box::new(left), right: Box::new(right) }),
+        NodeOp::Pow => Some(Node::Pow { left: Box::new(left), right: Box::new(right) }),
+        NodeOp::BLShift => Some(Node::BLShift { left: Box::new(left), right: Box::new(right) }),
+        NodeOp::BRShift => Some(Node::BRShift { left: Box::new(left), right: Box::new(right) }),
+        _ => None,
+    }
+}
+/// the plain assignment a compound assignment stands for
+pub open spec fn desugared(ast: AST, left: AST, right: AST, op: NodeOp) -> Option<AST> {
+    match op_node(op, left, right) {
+        Some(n) => Some(AST { pos: ast.pos, node: Node::Reassign { left: Box::new(left), right: Box::new(AST { pos: ast.pos, node: n }), op: NodeOp::Assign } }),
+        None => None,
+    }
+}
+
+//@@ FN src/check/constrain/generate/call.rs | free | reassign_op | props=C07,C01,C03
+    ensures
+        mono(*old(constr), *final(constr)), grows(*old(constr), *final(constr)), //# nothing_is_forgotten [C07]
+        r matches Ok(e) ==> e == *env && (desugared(*ast, *left, *right, *op) matches Some(d) && seen(*final(constr), d, *env)), //# compound_assignment_is_checked_as_plain_assignment_of_the_same_target [C07]
+        r is Err ==> r->Err_0@.len() >= 1,                                       //# rejection_carries_a_diagnostic [-]
+//@@ END
+
+
+// ---- gen_call (C07: every reassignment passes the reassignable + mutability tests first; C05/C08: a call of a function known
+// ---- to the context gets its parameters constrained, its return type recorded and its declared raises tested) -----------------
+/// the mutability verdict (check_iden_mut: a flat_map / guard closure chain over Environment::get_var — OUTSIDE reach)
+pub uninterp spec fn iden_mut_ok(id: Identifier, env: Environment, global: VarMapping) -> bool;
+#[verifier::external_body]
+pub fn check_iden_mut(id: &Identifier, env: &Environment, constr: &mut ConstrBuilder, pos: Position) -> (r: TypeResult<()>)
+    ensures *final(constr) == *old(constr), r is Ok <==> iden_mut_ok(*id, *env, old(constr).var_mapping), r is Err ==> r->Err_0@.len() >= 1,
+{ unimplemented!() }
+/// unit GENFLOW proves this contract on the real body (assume-guarantee)
+pub uninterp spec fn covered(ctx: Context, n: TrueName, caught: Set<TrueName>) -> bool;
+pub open spec fn all_covered(ctx: Context, raises: Set<TrueName>, caught: Set<TrueName>) -> bool {
+    forall|n: TrueName| raises.contains(n) ==> covered(ctx, n, caught)
+}
+#[verifier::external_body]
+pub fn check_raises_caught(raises: &HashSet<TrueName>, env: &Environment, ctx: &Context, pos: Position) -> (r: Constrained<()>)
+    ensures r is Ok <==> (!env.in_fun || all_covered(*ctx, hs(*raises), hs(env.raises_caught))), r is Err ==> r->Err_0@.len() >= 1,
+{ unimplemented!() }
+/// unit GENFLOW proves the chain contract of gen_vec; here only its consequence for carry_env == false is used
+#[verifier::external_body]
+pub fn gen_vec(asts: &[AST], env: &Environment, carry_env: bool, ctx: &Context, constr: &mut ConstrBuilder) -> (r: Constrained)
+    ensures mono(*old(constr), *final(constr)), grows(*old(constr), *final(constr)),
+        (r is Ok && !carry_env) ==> r == Ok::<Environment, Vec<TypeErr>>(*env) && forall|i: int| 0 <= i < asts@.len() ==> seen(*final(constr), #[trigger] asts@[i], *env),
+        r is Err ==> r->Err_0@.len() >= 1,
+{ unimplemented!() }
+#[verifier::external_body]
+pub fn property_call(instance: &mut Vec<AST>, property: &AST, env: &Environment, ctx: &Context, constr: &mut ConstrBuilder) -> (r: Constrained)
+    ensures mono(*old(constr), *final(constr)), grows(*old(constr), *final(constr)), r is Err ==> r->Err_0@.len() >= 1,
+{ unimplemented!() }
+#[verifier::external_body]
+pub fn gen_magic(name: &str, ast: &AST, left: &AST, right: &AST, env: &Environment, ctx: &Context, constr: &mut ConstrBuilder) -> (r: Constrained)
+    ensures mono(*old(constr), *final(constr)), grows(*old(constr), *final(constr)), r is Err ==> r->Err_0@.len() >= 1,
+{ unimplemented!() }
+pub const GET_ITEM: &'static str = "__getitem__";
+/// the function name a call node names (StringName::try_from: iterator code over the generics)
+pub uninterp spec fn sn_of(a: AST) -> StringName;
+pub uninterp spec fn print_name() -> StringName;
+impl StringName {
+    #[verifier::external_body]
+    pub fn try_from(a: &Box<AST>) -> (r: TypeResult<StringName>) ensures r matches Ok(n) ==> n == sn_of(**a), r is Err ==> r->Err_0@.len() >= 1 { unimplemented!() }
+}
+/// OUTLINED `f_name == StringName::from(function::PRINT)`
+#[verifier::external_body]
+pub fn verif_is_print(f: &StringName) -> (r: bool) ensures r == (*f == print_name()) { unimplemented!() }
+/// HAVOCKED: `args.iter().map(|arg| Constraint::stringy(..)).for_each(|cons| constr.add_constr(&cons, env))` — only adds
+#[verifier::external_body]
+pub fn verif_havoc_print_constraints(args: &Vec<AST>, env: &Environment, constr: &mut ConstrBuilder)
+    ensures mono(*old(constr), *final(constr)), grows(*old(constr), *final(constr)), final(constr).var_mapping == old(constr).var_mapping,
+{ unimplemented!() }
+/// HAVOCKED: the loop over the (HashSet of) local function values `for (_, fun_exp) in functions { .. constr.add(..) }`
+#[verifier::external_body]
+pub fn verif_havoc_local_function_loop(functions: HashSet<(bool, Expected)>, args: &Vec<AST>, env: &Environment, constr: &mut ConstrBuilder)
+    ensures mono(*old(constr), *final(constr)), grows(*old(constr), *final(constr)),
+{ unimplemented!() }
+/// OUTLINED closure chain of the Reassign arm: `identifier.all_calls().iter().flat_map(..without_obj(SELF)..).fold(env.clone(),
+/// |env, self_var| env.assigned_to(&self_var))` — discharges the assigned `self` fields, touches nothing else
+#[verifier::external_body]
+pub fn verif_assigned_env(identifier: &Identifier, env: &Environment, pos: Position) -> (r: Environment)
+    ensures r == (Environment { unassigned: r.unassigned, ..*env }), hss(r.unassigned).subset_of(hss(env.unassigned)),
+{ unimplemented!() }
+
+pub open spec fn call_post(ast: AST, env: Environment, ctx: Context, r: Constrained, b0: ConstrBuilder, b1: ConstrBuilder) -> bool {
+    match ast.node {
+        Node::Reassign { left, right, op } => r is Ok ==> (
+            // the target is an identifier chain and passes the mutability test in the CURRENT environment
+            reassignable(*left) matches Some(id) && iden_mut_ok(id, env, b0.var_mapping)
+            && (op == NodeOp::Assign ==> (r matches Ok(e)
+                // `target >= value` is recorded; both sides are checked; only constructor-field bookkeeping changes
+                && has(b1, exp_of(*left), exp_of(*right))
+                && e == (Environment { unassigned: e.unassigned, ..env }) && hss(e.unassigned).subset_of(hss(env.unassigned))
+                && seen(b1, *right, e) && seen(b1, *left, e)))
+            // a compound assignment is checked as the plain assignment it stands for (same target: the tests above apply again)
+            && (op != NodeOp::Assign ==> (r matches Ok(e) && e == env
+                && (desugared(ast, *left, *right, op) matches Some(d) && seen(b1, d, env))))),
+        Node::FunctionCall { name, args } => r matches Ok(e) ==> e == env
+            // every argument is checked in the caller's environment
+            && (forall|i: int| 0 <= i < args@.len() ==> seen(b1, #[trigger] args@[i], env))
+            // a function that is neither print nor a local value is looked up in the context: parameters, result, raises
+            // (the lookup uses the global mapping as it is AFTER the arguments were visited: stated for every mapping)
+            && ((sn_of(*name) != print_name() && forall|g: VarMapping| !visible(env, g, sn_of(*name).name@)) ==> (
+                params_post(ctx_fun(ctx, sn_of(*name)).arguments@, actuals(ast.pos, None, args@), ctx, b1)
+                && has(b1, exp_of(ast), type_exp(ast.pos, ctx_fun(ctx, sn_of(*name)).ret_ty))
+                && (!env.in_fun || all_covered(ctx, hs(ctx_fun(ctx, sn_of(*name)).raises.names), hs(env.raises_caught))))),
+        Node::PropertyCall { .. } => true,
+        Node::Index { .. } => true,
+        _ => r is Err,
+    }
+}
+
+//@@ FN src/check/constrain/generate/call.rs | free | gen_call | props=C07,C05,C08,C03
+//@@ REPLACE
+//@@< identifier .all_calls() .iter() .flat_map($$) .flat_map($$) .fold($$)
+//@@> verif_assigned_env(&identifier, env, left.pos)
+//@@ REPLACE
+//@@< f_name == StringName::from(function::PRINT)
+//@@> verif_is_print(&f_name)
+//@@ REPLACE
+//@@< args.iter() .map($$) .for_each($$);
+//@@> verif_havoc_print_constraints(args, env, constr);
+//@@ REPLACE
+//@@< for (_, $fe) in functions { $$ }
+//@@> verif_havoc_local_function_loop(functions, args, env, constr);
+    ensures
+        mono(*old(constr), *final(constr)), grows(*old(constr), *final(constr)), //# nothing_is_forgotten [C07,C05,C08]
+        call_post(*ast, *env, *ctx, r, *old(constr), *final(constr)),            //# reassignments_are_tested_first_and_context_calls_are_fully_constrained [C07,C05,C08]
         r is Err ==> r->Err_0@.len() >= 1,                                       //# rejection_carries_a_diagnostic [-]
 //@@ END
 
